@@ -64,6 +64,7 @@ type hmapClassifier struct {
 	recv string
 	fresh map[types.Object]ast.Expr // local var -> fresh entry expression
 	defPos map[types.Object]token.Pos
+	bodies []*ast.BlockStmt // the method body and the bodies of helpers inlined while enumerating it
 }
 
 func newHmapClassifier(fi *core.FuncInfo) *hmapClassifier {
@@ -142,6 +143,31 @@ func (c *hmapClassifier) classify(n ast.Node) []paths.Event {
 		}
 		return out
 	case *ast.AssignStmt:
+		// chain-walk bookkeeping (any arity: `prev = e; e = e.next` or `prev, e = e, e.next`):
+		// PREVSET(p=x): a local entry pointer takes the value of another; ADVANCE(x): x = x.next
+		if len(v.Lhs) == len(v.Rhs) && (v.Tok == token.ASSIGN || v.Tok == token.DEFINE) {
+			var adv []paths.Event
+			for i := range v.Lhs {
+				lid, ok := ast.Unparen(v.Lhs[i]).(*ast.Ident)
+				if !ok {
+					continue
+				}
+				if _, isPtr := c.info.TypeOf(v.Lhs[i]).(*types.Pointer); !isPtr {
+					continue
+				}
+				switch r := ast.Unparen(v.Rhs[i]).(type) {
+				case *ast.Ident:
+					if r.Name != "nil" && r.Name != lid.Name {
+						out = append(out, paths.Event{Kind: "PREVSET", Arg: lid.Name + "=" + r.Name, Pos: v.Pos()})
+					}
+				case *ast.SelectorExpr:
+					if rid, ok := ast.Unparen(r.X).(*ast.Ident); ok && rid.Name == lid.Name && isNextField(r.Sel.Name) {
+						adv = append(adv, paths.Event{Kind: "ADVANCE", Arg: lid.Name, Pos: v.Pos()})
+					}
+				}
+			}
+			out = append(out, adv...)
+		}
 		if len(v.Lhs) == 1 && len(v.Rhs) == 1 {
 			l, rr := v.Lhs[0], v.Rhs[0]
 			ls := c.norm(l)
@@ -194,6 +220,11 @@ func (c *hmapClassifier) classify(n ast.Node) []paths.Event {
 			if lsel, ok := ast.Unparen(l).(*ast.SelectorExpr); ok && isNextField(lsel.Sel.Name) {
 				if rsel, ok := ast.Unparen(rr).(*ast.SelectorExpr); ok && isNextField(rsel.Sel.Name) {
 					out = append(out, paths.Event{Kind: "BUCKET_UNLINK", Arg: "mid", Pos: v.Pos()})
+					if pid, ok := ast.Unparen(lsel.X).(*ast.Ident); ok {
+						if eid, ok := ast.Unparen(rsel.X).(*ast.Ident); ok {
+							out = append(out, paths.Event{Kind: "PREDVAR", Arg: pid.Name + "=" + eid.Name, Pos: v.Pos()})
+						}
+					}
 				}
 			}
 			if strings.HasSuffix(ls, ".value") || strings.HasSuffix(ls, ".Value") {
@@ -275,15 +306,17 @@ func (c *hmapClassifier) keySource(e ast.Expr) string {
 		obj := c.info.ObjectOf(id)
 		var def ast.Expr
 		n := 0
-		ast.Inspect(c.fi.Decl.Body, func(m ast.Node) bool {
-			if as, ok := m.(*ast.AssignStmt); ok && len(as.Lhs) == 1 && len(as.Rhs) == 1 {
-				if lid, ok := as.Lhs[0].(*ast.Ident); ok && c.info.ObjectOf(lid) == obj {
-					def = as.Rhs[0]
-					n++
+		for _, body := range append([]*ast.BlockStmt{c.fi.Decl.Body}, c.bodies...) {
+			ast.Inspect(body, func(m ast.Node) bool {
+				if as, ok := m.(*ast.AssignStmt); ok && len(as.Lhs) == 1 && len(as.Rhs) == 1 {
+					if lid, ok := as.Lhs[0].(*ast.Ident); ok && c.info.ObjectOf(lid) == obj {
+						def = as.Rhs[0]
+						n++
+					}
 				}
-			}
-			return true
-		})
+				return true
+			})
+		}
 		if def != nil {
 			// several definitions (one per eviction loop): the caller looks at the nearest; all must agree per branch
 			return c.norm(def)
@@ -292,14 +325,73 @@ func (c *hmapClassifier) keySource(e ast.Expr) string {
 	return c.norm(e)
 }
 
+// normCmp brings an ordering/equality comparison into a canonical spelling so that rules do not
+// depend on how the guard is written: constants on the right, variable pairs in lexical order, and
+// only the operators >, >=, == (x <= c is recorded as x > c with the opposite outcome, etc.).
+func (c *hmapClassifier) normCmp(cond ast.Expr, val bool) (string, bool, bool) {
+	be, ok := ast.Unparen(cond).(*ast.BinaryExpr)
+	if !ok {
+		return "", val, false
+	}
+	op := be.Op
+	switch op {
+	case token.LSS, token.LEQ, token.GTR, token.GEQ, token.EQL, token.NEQ:
+	default:
+		return "", val, false
+	}
+	x, y := be.X, be.Y
+	isConst := func(e ast.Expr) bool {
+		if id, ok := ast.Unparen(e).(*ast.Ident); ok && id.Name == "nil" {
+			return true
+		}
+		tv, ok := c.info.Types[e]
+		return ok && tv.Value != nil
+	}
+	xs, ys := c.norm(x), c.norm(y)
+	if (isConst(x) && !isConst(y)) || (!isConst(x) && !isConst(y) && xs > ys) {
+		xs, ys = ys, xs
+		op = flipOp(op)
+	}
+	switch op {
+	case token.LSS:
+		op, val = token.GEQ, !val
+	case token.LEQ:
+		op, val = token.GTR, !val
+	case token.NEQ:
+		op, val = token.EQL, !val
+	}
+	return xs + op.String() + ys, val, true
+}
+
+// cc spells a comparison outcome the way condEvent records it (same canonical form as normCmp).
+func cc(l, op, r string, val bool) string {
+	isConst := func(s string) bool { return s == "nil" || (len(s) > 0 && (s[0] >= '0' && s[0] <= '9' || s[0] == '-')) }
+	if (isConst(l) && !isConst(r)) || (!isConst(l) && !isConst(r) && l > r) {
+		l, r = r, l
+		op = map[string]string{"<": ">", "<=": ">=", ">": "<", ">=": "<=", "==": "==", "!=": "!="}[op]
+	}
+	switch op {
+	case "<":
+		op, val = ">=", !val
+	case "<=":
+		op, val = ">", !val
+	case "!=":
+		op, val = "==", !val
+	}
+	return fmt.Sprintf("%s%s%s=%v", l, op, r, val)
+}
+
 func (c *hmapClassifier) condEvent(cond ast.Expr, val bool) *paths.Event {
 	s := c.norm(cond)
+	if ns, nv, ok := c.normCmp(cond, val); ok {
+		s, val = ns, nv
+	}
 	kind := "COND"
-	// found: e.key == key
-	if be, ok := ast.Unparen(cond).(*ast.BinaryExpr); ok && be.Op == token.EQL {
+	// found: e.key == key (or its negation e.key != key)
+	if be, ok := ast.Unparen(cond).(*ast.BinaryExpr); ok && (be.Op == token.EQL || be.Op == token.NEQ) {
 		l := c.norm(be.X)
 		if (strings.HasSuffix(l, ".key") || strings.HasSuffix(l, ".Key")) && c.isParam(be.Y) {
-			s = "found"
+			s = "found" // val was already normalised to the == outcome by normCmp
 		}
 	}
 	if call, ok := ast.Unparen(cond).(*ast.CallExpr); ok && len(call.Args) == 1 {
@@ -348,12 +440,60 @@ func modeParam(fi *core.FuncInfo) types.Object {
 func (h *hmapType) enumerate(fi *core.FuncInfo, cl *hmapClassifier, mode string) ([]paths.Path, bool) {
 	mp := modeParam(fi)
 	info := fi.Pkg.TypesInfo
+	modeObjs := map[types.Object]bool{}
+	if mp != nil {
+		modeObjs[mp] = true
+	}
 	isMode := func(e ast.Expr) bool {
 		id, ok := ast.Unparen(e).(*ast.Ident)
-		return ok && mp != nil && info.ObjectOf(id) == mp
+		return ok && modeObjs[info.ObjectOf(id)]
+	}
+	// same-receiver helpers that are not themselves primitive operations of the rule table
+	// (chain/unchain/remove/rehash/clear/put/add/hash...) are followed: an extracted
+	// `evictFor(m)` / `growIfNeeded()` is judged as if it were written in place
+	primitive := map[string]bool{"chain": true, "unchain": true, "remove": true, "rehash": true, "clear": true, "put": true, "add": true, "_add": true,
+		"overflowed": true, "hash": true, "Size": true, "IsEmpty": true, "IsFull": true}
+	inlineBody := func(call *ast.CallExpr) *ast.BlockStmt {
+		sel, ok := call.Fun.(*ast.SelectorExpr)
+		if !ok || primitive[sel.Sel.Name] {
+			return nil
+		}
+		if id, ok := ast.Unparen(sel.X).(*ast.Ident); !ok || id.Name != cl.recv {
+			return nil
+		}
+		fn, _ := info.Uses[sel.Sel].(*types.Func)
+		if fn == nil || fn.Exported() {
+			return nil
+		}
+		cfi := h.p.FuncOf(fn)
+		if cfi == nil || cfi.Decl.Body == nil || cfi.Pkg != fi.Pkg || recvName(cfi) != cl.recv || cfi == fi {
+			return nil
+		}
+		// parameters that receive the caller's mode are mode variables too
+		i := 0
+		for _, f := range cfi.Decl.Type.Params.List {
+			for _, n := range f.Names {
+				if i < len(call.Args) && isMode(call.Args[i]) {
+					modeObjs[info.Defs[n]] = true
+				}
+				i++
+			}
+		}
+		seen := false
+		for _, b := range cl.bodies {
+			if b == cfi.Decl.Body {
+				seen = true
+			}
+		}
+		if !seen {
+			cl.bodies = append(cl.bodies, cfi.Decl.Body)
+		}
+		return cfi.Decl.Body
 	}
 	cfg := paths.Config{
 		Info:     info,
+		Inline:   inlineBody,
+		MaxInline: 2,
 		Classify: cl.classify,
 		Cond:     cl.condEvent,
 		Fold: func(c ast.Expr) (bool, bool) {
@@ -467,18 +607,18 @@ func (h *hmapType) checkInsertHelpers() {
 					if h.linked && mp != nil {
 						wantMove := strings.Contains(mode, "FORCE")
 						end := modeEnd(mode)
-						guard := "header.link_next!=e"
+						guardL := "header.link_next"
 						if end == "last" {
-							guard = "header.link_prev!=e"
+							guardL = "header.link_prev"
 						}
 						moved := pa.Has("UNLINK") && pa.HasArg("LINK", end)
-						already := pa.HasArg("COND", guard+"=false")
+						already := pa.HasArg("COND", cc(guardL, "!=", "e", false))
 						switch {
 						case !wantMove && (pa.Has("UNLINK") || pa.Has("LINK")):
 							upd = append(upd, "a plain put/add moves an existing entry in the order list")
 						case wantMove && !moved && !already:
 							upd = append(upd, "put-"+end+" does not move an existing entry to the "+end+" end: "+pa.String())
-						case wantMove && moved && !pa.HasArg("COND", guard+"=true"):
+						case wantMove && moved && !pa.HasArg("COND", cc(guardL, "!=", "e", true)):
 							upd = append(upd, "the move is not guarded by 'not already at that end'")
 						case wantMove && pa.HasArg("LINK", opposite(end)):
 							upd = append(upd, "existing entry moved to the wrong end")
@@ -637,7 +777,35 @@ func (h *hmapType) checkRemove() {
 		}
 		var probs []string
 		nf := 0
+		// the predecessor variable P and the walked variable E of the bucket-chain walk (P.next = E.next)
+		predP, predE := "prev", ""
 		for _, pa := range ps {
+			for _, e := range pa {
+				if e.Kind == "PREDVAR" {
+					if i := strings.Index(e.Arg, "="); i > 0 {
+						predP, predE = e.Arg[:i], e.Arg[i+1:]
+					}
+				}
+			}
+		}
+		for _, pa := range ps {
+			// walk discipline: whenever E advances to E.next, P must have been set to E first (in that
+			// iteration); otherwise P is not the predecessor and unlinking a non-head entry cuts the
+			// chain in the wrong place
+			if predE != "" {
+				set := false
+				for _, e := range pa {
+					switch {
+					case e.Kind == "PREVSET" && e.Arg == predP+"="+predE:
+						set = true
+					case e.Kind == "ADVANCE" && e.Arg == predE:
+						if !set {
+							probs = append(probs, "the chain walk advances "+predE+" without first recording it as the predecessor "+predP+": removing an entry that is not first in its bucket unlinks the wrong part of the chain")
+						}
+						set = false
+					}
+				}
+			}
 			if isFound(pa) {
 				nf++
 				if pa.Count("BUCKET_UNLINK") != 1 || pa.Count("DEC") != 1 {
@@ -647,10 +815,10 @@ func (h *hmapType) checkRemove() {
 					probs = append(probs, "found entry is not removed from the order list exactly once")
 				}
 				// head unlink iff no predecessor
-				if pa.HasArg("COND", "prev!=nil=true") && !pa.HasArg("BUCKET_UNLINK", "mid") {
+				if pa.HasArg("COND", cc(predP, "!=", "nil", true)) && !pa.HasArg("BUCKET_UNLINK", "mid") {
 					probs = append(probs, "entry with a predecessor is not unlinked through prev.next")
 				}
-				if pa.HasArg("COND", "prev!=nil=false") && !pa.HasArg("BUCKET_UNLINK", "head") {
+				if pa.HasArg("COND", cc(predP, "!=", "nil", false)) && !pa.HasArg("BUCKET_UNLINK", "head") {
 					probs = append(probs, "first entry of a bucket is not unlinked through the table slot")
 				}
 			} else if pa.Has("DEC") || pa.Has("BUCKET_UNLINK") || pa.Has("UNLINK") {
